@@ -317,7 +317,7 @@ open Model.StateMgr (Addr Content Key Val Err lookup insert adjust updateAll cur
 open Model.StateMgrN Model.StateMgrPy.N Gen.StateMgrSrc.N
 
 /-- `_ensure_copy` on the cells of the nested model: a plain array is duplicated (`.copy()`), an object array is DEEP-copied
-    (`copy.deepcopy(value) if value.dtype.hasobject`): this is `copyVal` with `deep = true` -/
+    (`_deepcopy_array(value) if value.dtype.hasobject`): this is `copyVal` with `deep = true` -/
 theorem C17_srcN_ensure_copy (o : Owner) (h : Heap) (v : Val) : copyVal true o h v = ensureCopy o h v := by
   cases v with
   | none => rfl
